@@ -1,0 +1,18 @@
+//go:build verif
+
+package writecache
+
+// VerifSize returns the size the cache accounts as used and the number of
+// accounted objects (verification harness only).
+func VerifSize(c Cache) (uint64, int) {
+	cc := c.(*cache)
+	return cc.objCounters.Size(), len(cc.objCounters.Map())
+}
+
+// VerifQuiesce waits for in-flight flush operations (they hold the mode lock
+// for reading) to finish.
+func VerifQuiesce(c Cache) {
+	cc := c.(*cache)
+	cc.modeMtx.Lock()
+	cc.modeMtx.Unlock() //nolint:staticcheck // empty critical section on purpose
+}
